@@ -31,6 +31,7 @@ const (
 	outErr
 	outPanic
 	outPlanPanic // Plan() of the stage panics (planning runs in the parent's goroutine, before anything is submitted)
+	outHookPanic // the stage's operators succeed, its Complete() hook panics (lindb's shard scan / grouping stages collect tag values there)
 )
 
 // Gen: a stage tree. Op{K:"stage", T:index, A:parent (-1 root), B:outcome, C:async(1)/inline(0) | work<<1,
@@ -70,8 +71,11 @@ func (H) Gen(prop string, rng *rand.Rand, tier string) *core.Plan {
 			out = outErr
 		} else if r < failP+panicP {
 			out = outPanic
-			if rng.Intn(3) == 0 {
+			switch rng.Intn(4) {
+			case 0:
 				out = outPlanPanic
+			case 1:
+				out = outHookPanic
 			}
 		}
 		async := 0
@@ -249,7 +253,15 @@ func (H) Run(c *core.RunCtx) {
 				ks = append(ks, build(k))
 			}
 			return ks
-		}, nil)
+		}, func() {
+			if n.outcome == outHookPanic {
+				anyFailedStarted = true
+				anyPanic = true
+				sim.Event("stage %d completion hook panic", n.idx)
+				sim.Fault("complete-hook-panic")
+				panic(fmt.Sprintf("completion hook of stage %d panics", n.idx))
+			}
+		})
 	}
 	pl := query.NewExecutePipeline(trackerpkg.NewStageTracker(flow.NewTaskContextWithTimeout(ctx, time.Hour)), func(err error) {
 		callbacks++
